@@ -53,9 +53,9 @@ type Violation struct {
 
 // Trace is a completed path with a model, used for native differential replay.
 type Trace struct {
-	Inputs  []InputVal `json:"inputs"`
-	Observe []string   `json:"observe"`
-	Outcome string     `json:"outcome"` // ok | assert:<label> | panic
+	Inputs  []InputVal        `json:"inputs"`
+	Observe []string          `json:"observe"`
+	Outcome string            `json:"outcome"` // ok | assert:<label> | panic
 	Docs    map[string]string `json:"docs,omitempty"`
 }
 
